@@ -144,7 +144,7 @@ SUITES = {'riemann': suite_riemann, 'analytic': suite_analytic}
 
 def generate(ctx):
     rng = ctx.rng
-    for _ in range(ctx.n(150, 1500)):
+    for _ in range(ctx.n(150, 6000)):
         L = rng.choice([3, 4, 5, 7, 8, 11, 13, 16, 17, 23, 31, 32, 33, 47, 64, 96, rng.randint(3, ctx.n(96, 200))])
         case = {'L': L, 'aseed': rng.randrange(10 ** 6), 'ops': [], 'amp': rng.choice([1.0, 1.0, 1.0, 1e-9, 1e-12, 1e6])}
         c0 = rng.random()
@@ -158,7 +158,7 @@ def generate(ctx):
             k = rng.choice(['dr', 'dk', 'length'])
             case['ops'].append([k, rng.choice([5, 9, 16, 21, 40]) if k == 'length' else float('%.5g' % (10 ** rng.uniform(-2, 0.5)))])
         ctx.case('riemann', case, True, tags=['dtype:' + case['dtype'], 'intdr' if isinstance(case.get('dr'), int) else 'floatdr', 'from:' + ('dr' if 'dr' in case else 'dk'), 'hist:%d' % len(case['ops'])]); suite_riemann(ctx, case)
-    for _ in range(ctx.n(40, 300)):
+    for _ in range(ctx.n(40, 1000)):
         rmax = rng.choice([20.0, 25.6, 30.0, 40.0, 800.0, 2000.0])
         N0 = rng.choice([100, 128, 160, 200, 250])
         if rmax >= 800: N0 = rng.choice([400, 500])                      # large boxes: dk = pi/r_max < 0.01
